@@ -26,8 +26,7 @@ CLAIMS = {
              "interpolation, 1e-9) and judged by anchor / fresh-id / on-cable / cable-length / nearest-node oracles.",
         note="Geometry theorems are over Rat and assume arc-length steps ≥ true edge lengths (exact on integer-length inputs); nearest-ancestor, gap and "
              "branching theorems assume correct labels (navis uses its current `type` column); non-linear method= kinds, cKDTree and np.interp "
-             "are trusted / oracle-only; the round-vs-other-rounding node count is a correspondence clause. Four open findings (int32 id "
-             "wrap-around, soma id 0 dropped, list-pinned somas break subset, non-linear methods raise KeyError).",
+             "are trusted / oracle-only; the round-vs-other-rounding node count is a correspondence clause.",
         technique="Lean 4 proof (nearest-kept-ancestor + gap + branching preservation; on-cable + chord ≤ arc) + exact correspondence",
         ref="§5 C13"),
     'C11': dict(
@@ -43,7 +42,7 @@ CLAIMS = {
              "checker healOKB on navis' own output; minimality also tested by exhaustive spanning-forest enumeration (≤ 6 fragments).",
         note="Squared integer distances stand in for Euclidean lengths; inputs with equal cross-fragment distances are rejected (kd-tree tie-breaking "
              "not modelled); parent direction of non-main remaining trees after partial healing is arbitrary in navis (undirected edges compared); "
-             "pykdtree / networkx / pandas primitives trusted. Two open findings (tag names remapped instead of tagged ids; node-list method ignored).",
+             "pykdtree / networkx / pandas primitives trusted.",
         technique="Lean 4 proof (Kruskal optimality, spanning-forest invariants, id-remap injectivity) + exact correspondence",
         ref="§5 C11"),
     'C17': dict(
@@ -58,9 +57,7 @@ CLAIMS = {
              "exhaustive forests under fastcore, igraph and networkx; Lean checkers strahlerOKB / sfcOKB on navis' own columns; segregation, "
              "tortuosity and segment_analysis oracles.",
         note="The logarithmic entropy is not formalised ([0,1] bound is a theorem for abstract concave H only); Euclidean edge lengths validated on "
-             "integer-length edges; flow_centrality and bending_flow are modelled as written; navis-fastcore is a third implementation. 11 open "
-             "findings (segment_analysis broken under pandas 3, fastcore ignored twigs keep 0, Python flow on forests / forking roots, crashes "
-             "with one connector kind, flow_centrality on terminal twigs, …).",
+             "integer-length edges; flow_centrality and bending_flow are modelled as written; navis-fastcore is a third implementation.",
         technique="Lean 4 proof (Strahler fuel independence + uniqueness, flow = path count) + per-node differential correspondence",
         ref="§5 C17"),
     'C18': dict(
@@ -92,7 +89,7 @@ CLAIMS = {
              "arithmetic operators and list operators.",
         note="Lean proves the pattern, not each function body: the per-function guarantee is the syntactic premise plus the sweep on sampled "
              "inputs. Delegations are covered by the callee's row. Tags and user attributes are outside the heap model (swept only). 54 callables "
-             "are skipped with reasons listed in the evidence (GUI, template brains, missing optional deps, mutators by contract). Four open findings.",
+             "are skipped with reasons listed in the evidence (GUI, template brains, missing optional deps, mutators by contract).",
         technique="Lean 4 proof (heap frame / separation after copy) + AST translator with a decide-checked table + catalogue sweep",
         ref="§5 C03"),
     'C07': dict(
@@ -106,8 +103,7 @@ CLAIMS = {
              "write_swc are lexed and parsed by the Lean parser and compared with the model table; read_swc vs readBack; independent "
              "round-trip oracles; 12 source kinds and fmt patterns; hand-made SWC text and NaN rows.",
         note="The character/JSON lexers and matchFmt are trusted, not proved; pandas / csv / zipfile / tarfile modelled at token level; floats "
-             "cross as shortest decimal repr read as exact rationals. Three open findings (parent-after-child ordering for non id-topological "
-             "tables, NaN row raises, anisotropic units collapsed).",
+             "cross as shortest decimal repr read as exact rationals.",
         technique="Lean 4 proof (SWC validity characterisation, round trip under the node map) + byte-level correspondence",
         ref="§5 C07"),
     'C14': dict(
@@ -123,7 +119,7 @@ CLAIMS = {
              "corrupted subsets vs the Lean policy model; NRRD / HDF5 / JSON / mesh files by navis round trip plus pynrrd / h5py / json / trimesh.",
         note="float32 values are opaque 32-bit patterns; gzip, HDF5, zip, pynrrd, h5py, trimesh are external (table level tested only); "
              "'navis' reader rejects every truncation' is false for the code (only _partial proved, counter-example given), likewise Dotprops "
-             "NRRD units. 11 open findings suppress exactly their signatures.",
+             "NRRD units.",
         technique="Lean 4 proof (codec inverses, length pinning, policy isolation) + translator + two-way byte-level correspondence",
         ref="§5 C14"),
     'C02': dict(
@@ -140,8 +136,7 @@ CLAIMS = {
              "freshly constructed neuron.",
         note="The content hash is assumed injective; history_fresh assumes changes yield content not seen before (ABA after a locked co-edit is "
              "a recorded finding); reads inside locked operations are covered by C10/C01 correspondence; viewDeps is hand-written and "
-             "validated by the oracle only. Four open findings (simple without wrapper; checksum ABA; stale type after in-place parent edit; "
-             "simple depends on unhashed radius).",
+             "validated by the oracle only.",
         technique="Lean 4 proof (invariant + list induction over an event model) over an ast-generated spec + trace refinement",
         ref="§5 C02"),
     'C06': dict(
@@ -186,8 +181,7 @@ CLAIMS = {
              "Volume, Trimesh; mirror_brain / mirror / symmetrize_brain over all axes, bounding-box layouts and warp modes; input untouched.",
         note="_guess_change's random sample is not modelled: its result is recorded and passed to the model as a parameter; sqrt normalisation, "
              "×10**m and pint to_compact compared at relative 2^-30; KD-tree / SVD tangent regeneration external (unit norm checked); voxel "
-             "resampling oracle-only. Three open findings (integer coordinates truncated on mirroring, symmetrize_brain drops k-less tangents, "
-             "xform raises when all rows coincide).",
+             "resampling oracle-only.",
         technique="Lean 4 proof (stack/slice exactness, mirror involution, rewinding) + exact differential correspondence",
         ref="§5 C16"),
     'C04': dict(
@@ -215,8 +209,7 @@ CLAIMS = {
              "with the model; Lean checkers evaluated on navis' own grids.",
         note="make_dotprops(k>0) tangents/alpha are TESTED (1e-8) against the exact Fraction inertia matrix of exactly recomputed neighbours; "
              "KD-tree, SVD, marching cubes, tube meshing and skeletor are external numerics — tube / voxel-mesh / mesh→skeleton clauses are "
-             "oracle-only tests. Six open findings (counts/vectors with clipping bounds raise, tangent orientation sign, inf rows, NaN alpha "
-             "for zero-variance neighbourhoods, isolated nodes in tube meshes).",
+             "oracle-only tests.",
         technique="Lean 4 proof over Rat/Int voxel + tangent model + exact differential correspondence",
         ref="§5 C19"),
     'C08': dict(
@@ -230,7 +223,7 @@ CLAIMS = {
              "TemplateRegistry instances with hidden exact dyadic frames — graph edges, find_bridging_path decision and transforms, "
              "xform_brain / shortest_bridging_seq equal to the direct change of frame bit-exactly; NaN rows, input unmodified, -seq, cache histories.",
         note="TPS/MLS landmark interpolation and float matrices are tolerance tests, not proofs; networkx shortest_path/all_simple_paths assumed "
-             "to meet their specification; CMTK/H5/elastix transforms not covered. Two open findings (via+avoid; long via names truncated).",
+             "to meet their specification; CMTK/H5/elastix transforms not covered.",
         technique="Lean 4 proof (group telescoping, affine inverse, sequence fold) + exact dyadic correspondence",
         ref="§5 C08"),
     'C12': dict(
@@ -294,22 +287,23 @@ CLAIMS = {
              "cable_length, adjacency matrix, segments, small_segments, segment_length of real TreeNeurons with integer edge lengths (checked "
              "per case) on shuffled/sparse/large ids and shuffled rows, diffed exactly against the model; checkers run on navis' own lists.",
         note="csgraph.dijkstra / igraph / fastcore compute the values in navis; the model is the definition. `segments` is compared with the "
-             "greedy-longest model only when leaf depths and segment lengths have no ties (otherwise only the proved-sound checker decides). "
-             "One open finding: skeleton_adjacency_matrix is broken under pandas 3.",
+             "greedy-longest model only when leaf depths and segment lengths have no ties (otherwise only the proved-sound checker decides).",
         technique="Lean 4 proof (LCA path distances, edge-partition of segment decompositions) + exact differential correspondence",
         ref="§5 C05"),
     'C10': dict(
-        text="Theorems (Props/C10.lean, 18, unbounded): subset returns exactly the requested present ids in table order, keeps the original "
+        text="Theorems (Props/C10.lean, 23, unbounded): subset returns exactly the requested present ids in table order, keeps the original "
              "parent link iff both ends survive (new root otherwise) with unchanged coordinates, and yields a well-formed, correctly "
              "labelled forest; reroot keeps the node set and coordinates, makes the target a root, leaves every node off the reversed path "
              "(hence every other fragment) untouched, permutes the undirected edge set (Perm), keeps labels correct through navis' "
              "incremental relabel, and yields a well-formed forest for any target sequence; cut: distal piece = descendants-or-self of the "
              "cut node, proximal = complement + cut node, pieces well-formed, share exactly the cut node and their edges are a permutation "
-             "of the original edges. Tie: navis' node table after "
+             "of the original edges; prevent_fragments: the connected subgraph contains every requested present node, only existing nodes, is "
+             "connected within every tree, is contained in every tree-connected superset of the request (minimality), and the trailing reroot is "
+             "a no-op so the operation is subset on that set. Tie: navis' node table after "
              "reroot/cut/multi-cut/subset (list, set, array, mask, graph, DataFrame; prevent_fragments) is diffed against the Lean model "
              "on generated forests; the oracle evaluates every clause of the property directly on navis' output (node set, undirected "
              "edges, coordinates, cable length, root, untouched fragments, distal/proximal sets, edge partition, connectors/tags).",
-        note="prevent_fragments minimality is decided by the run-time oracle against an independent lowest-common-ancestor computation, not by a theorem. "
+        note="Iteration orders navis leaves to Python set/dict order in connected_subgraph are fixed to table order in the model (the theorems are about the included SET). "
              "Back-end variants are exercised by C04.",
         technique="Lean 4 proof (rank-form WF, exact subset/reroot/cut characterisation) + table-level correspondence",
         ref="§5 C10"),
@@ -333,6 +327,18 @@ PENDING = set()
 NOT_YET = "not claimed at this commit: the Lean model / correspondence for this property is not built yet (work in progress, see DESIGN.md §5)"
 
 
+def findings_note(pid):
+    fs = []
+    for f in [ROOT / 'known_findings.json'] + sorted((ROOT / 'known_findings').glob('*.json')):
+        fs += [k for k in json.loads(f.read_text()).get('findings', []) if k.get('property') == pid]
+    op = [k['signature'] for k in fs if k.get('status') == 'open']
+    fx = [k for k in fs if k.get('status') == 'fixed']
+    out = f" Genuine defects found by this check: {len(fx)} repaired by fix: commits in /repo, {len(op)} open"
+    if op:
+        out += " (printed as KNOWN-FINDING, each suppresses exactly its signature: " + "; ".join(x[:70] for x in op) + ")"
+    return out + "."
+
+
 def main():
     props = [json.loads(l) for l in (ROOT / 'properties.jsonl').read_text().splitlines() if l.strip()]
     checks, na = [], []
@@ -348,7 +354,7 @@ def main():
                 'replay_cmd_template': f'./check {pid} --replay {{path}}',
                 'engine': 'lean-proof+correspondence',
                 'level_claimed': {'category': 'proof', 'text': c['text'], 'design_ref': c['ref']},
-                'level_note': COMMON_NOTE + c['note'],
+                'level_note': COMMON_NOTE + c['note'] + findings_note(pid),
                 'technique': c['technique'],
             })
         else:
